@@ -25,7 +25,7 @@ theorem C09_decode_compressed_same_counts_partial (a : Bool) (t : List Desc) (hq
   have htree : w.tree = .ok w.nodes := by
     unfold Wired.tree Wired.fuel
     rw [htab]
-    exact resolveList_plain o0 (w.st.next + 2) ⟨by omega, fun _ => by omega⟩ w.nodes hp
+    exact resolveList_plain o0 (2 * w.st.next + 3) ⟨by omega, fun _ => by omega⟩ w.nodes hp
   have hwire : wire t o0 = .ok w.nodes := by unfold wire; rw [hw]; exact htree
   exact ⟨w.nodes, hwire, decodeCompressed_sameCounts hq h h0 hw⟩
 
